@@ -1,0 +1,82 @@
+//go:build verif
+
+// Verification hooks (build tag "verif"). Add-only.
+
+package intermediate
+
+import (
+	"time"
+)
+
+// VerifShiftDeadlines implements virtual time for the aggregation process: it subtracts d from
+// every queued deadline (under the mutex), which is equivalent to advancing the clock by d as far
+// as every comparison against time.Now() is concerned. The heap order is unaffected because all
+// deadlines move by the same amount.
+func (a *AggregationProcess) VerifShiftDeadlines(d time.Duration) {
+	a.mutex.Lock()
+	defer a.mutex.Unlock()
+	for _, item := range a.expirePriorityQueue {
+		item.activeExpireTime = item.activeExpireTime.Add(-d)
+		item.inactiveExpireTime = item.inactiveExpireTime.Add(-d)
+	}
+	// Items that are referenced by a flow record but are not in the queue (stranded) are shifted
+	// too, so that a later Update() of such an item sees consistent virtual times.
+	inQueue := make(map[*ItemToExpire]bool, len(a.expirePriorityQueue))
+	for _, item := range a.expirePriorityQueue {
+		inQueue[item] = true
+	}
+	for _, rec := range a.flowKeyRecordMap {
+		if it := rec.PriorityQueueItem; it != nil && !inQueue[it] {
+			it.activeExpireTime = it.activeExpireTime.Add(-d)
+			it.inactiveExpireTime = it.inactiveExpireTime.Add(-d)
+		}
+	}
+}
+
+// VerifQueueItem is a snapshot of one entry of the expiry heap.
+type VerifQueueItem struct {
+	Key        FlowKey
+	Active     time.Time
+	Inactive   time.Time
+	Index      int  // the item's own index field
+	Pos        int  // its actual position in the heap array
+	RecordSame bool // item.flowRecord is the record the map holds for Key
+	BackPtr    bool // the map's record points back to this item
+}
+
+// VerifFlow is a snapshot of one entry of the flow map.
+type VerifFlow struct {
+	Key     FlowKey
+	Ready   bool
+	Retries int
+	Filled  bool
+	IsIPv4  bool
+	ItemIdx int // PriorityQueueItem.index (-1 when popped), -2 when nil
+}
+
+// VerifSnapshot returns the flow map and the heap array as they are, under the mutex.
+func (a *AggregationProcess) VerifSnapshot() ([]VerifFlow, []VerifQueueItem, time.Time) {
+	a.mutex.Lock()
+	defer a.mutex.Unlock()
+	flows := make([]VerifFlow, 0, len(a.flowKeyRecordMap))
+	for k, rec := range a.flowKeyRecordMap {
+		f := VerifFlow{Key: k, Ready: rec.ReadyToSend, Retries: rec.waitForReadyToSendRetries, Filled: rec.areCorrelatedFieldsFilled, IsIPv4: rec.isIPv4, ItemIdx: -2}
+		if rec.PriorityQueueItem != nil {
+			f.ItemIdx = rec.PriorityQueueItem.index
+		}
+		flows = append(flows, f)
+	}
+	items := make([]VerifQueueItem, 0, len(a.expirePriorityQueue))
+	for pos, item := range a.expirePriorityQueue {
+		q := VerifQueueItem{Active: item.activeExpireTime, Inactive: item.inactiveExpireTime, Index: item.index, Pos: pos}
+		if item.flowKey != nil {
+			q.Key = *item.flowKey
+			if rec, ok := a.flowKeyRecordMap[*item.flowKey]; ok {
+				q.RecordSame = rec == item.flowRecord
+				q.BackPtr = rec.PriorityQueueItem == item
+			}
+		}
+		items = append(items, q)
+	}
+	return flows, items, time.Now()
+}
